@@ -15,16 +15,28 @@ FMT = ['json', 'yml', 'yaml']
 ID0 = [None, 5, -1]
 ID1 = [None, 0, 7]
 NAMES = ['srv', 'no', '1:2', 'schön ☃', 'host \U0001F600']
-DPV = [None, 0.0, 0.3]
+DPV = [None, 0.0, 0.3, 1 / 3, 1e-09]
 DGV = [None, 1.0]
 _CNT = [0]
 
 
-def describe(m):
+def _defense_names(lg, typename):
+    t = lg.get_asset_by_name(typename)
+    out = []
+    for x in [t] + list(t.get_all_superassets()):
+        for st in x.attack_steps:
+            if st.type == 'defense' and st.name not in out:
+                out.append(st.name)
+    return sorted(out)
+
+
+def describe(m, lg=None):
     """Typed, structural description of a model through its public attributes."""
     assets = {}
     for a in m.assets:
-        d = {'name': str(a.name), 'type': str(a.type), 'defenses': {k: float(v) for k, v in m.get_asset_defenses(a, include_defaults=True).items()},
+        # defense values are read from the asset objects themselves (not through Model.get_asset_defenses, which the writer uses)
+        names = _defense_names(lg, str(a.type)) if lg is not None else sorted(m.get_asset_defenses(a, include_defaults=True))
+        d = {'name': str(a.name), 'type': str(a.type), 'defenses': {k: float(getattr(a, k)) for k in names},
              'extras': a.extras.as_dict() if hasattr(a.extras, 'as_dict') else dict(a.extras)}
         if type(a.id) is bool or int(a.id) in assets:
             return 'asset id %r duplicated or ill-typed' % (a.id,)
@@ -68,12 +80,12 @@ def roundtrip(m, lcf, fmt):
 
 
 def compare(m, lcf, fmt):
-    d0 = describe(m)
+    d0 = describe(m, lcf.lang_graph)
     if isinstance(d0, str):
         return 'original model: ' + d0
     td0 = m._to_dict()
     l, c1, c2 = roundtrip(m, lcf, fmt)
-    d1 = describe(l)
+    d1 = describe(l, lcf.lang_graph)
     if isinstance(d1, str):
         return 'loaded model: ' + d1
     for k in ('name', 'assets', 'associations', 'attackers'):
@@ -146,7 +158,8 @@ def body_attrs(cube, **kw):
         if do:
             assets[1].dP = [None, 1.0, 0.5][do]     # O.dP defaults to 0, G1.dP to 1: 1.0 equals the other type's default
         if xa:
-            assets[0].extras = {'pos': {'x': 1, 'y': 2.5}, 'tag': 'n', 'zero': 0, 'empty': '', 'off': False}
+            assets[0].extras = {'pos': {'x': 1, 'y': 2.5}, 'tag': 'n', 'zero': 0, 'empty': '', 'off': False,
+                                'ports': {'80': 'http', '-1': 'x', '007': 1}}
         links = []
         if l0:
             links.append(mb.add_link(m, lcf, 'L', 'ps', [assets[0], assets[2]], 'os', [assets[1]]))
@@ -197,7 +210,7 @@ def body_hand(cube, **kw):
                     os.remove(p)
                 except OSError:
                     pass
-        got = describe(m)
+        got = describe(m, lcf.lang_graph)
         if isinstance(got, str):
             return got
         want_assets = {0: {'name': 'zero', 'type': 'O', 'defenses': {'dP': 0.0}, 'extras': {}},
@@ -223,7 +236,7 @@ def queries(tier):
                                ({}, {'fmt': 1, 'i0': 2, 'i1': 2, 'nm': 3, 'a2': False, 'att': 1})],
                     bound='L_INH model: asset 0 (G1) with id from %s and name from %r, asset 1 (O) with id from %s (0 not first, gaps, negative), optional third asset, '
                           '0-2 attackers with several entry points, one L link; formats %s' % (ID0, NAMES, ID1, FMT)))
-    ps = [I('fmt', 0, 2), I('dp', 0, 2), I('dg', 0, 1), I('do', 0, 2), B('xa'), B('xl'), B('l0'), B('l1'), B('l2'), B('l3'), I('att', 0, 2)]
+    ps = [I('fmt', 0, 2), I('dp', 0, len(DPV) - 1), I('dg', 0, 1), I('do', 0, 2), B('xa'), B('xl'), B('l0'), B('l1'), B('l2'), B('l3'), I('att', 0, 2)]
     qs.append(Query(name='attrs', body=body_attrs, params=ps, split=['fmt', 'xl', 'dp', 'l0'], timeout=500, pre=['do == 0 or (l2 and not l1)', 'not l3 or (l0 + l1 + l2 <= 1)'],
                     witnesses=[({}, {'fmt': 0, 'dp': 2, 'dg': 1, 'do': 1, 'xa': True, 'xl': True, 'l0': False, 'l1': False, 'l2': True, 'l3': True, 'att': 2}),
                                ({}, {'fmt': 2, 'dp': 1, 'dg': 0, 'do': 0, 'xa': True, 'xl': False, 'l0': True, 'l1': True, 'l2': False, 'l3': False, 'att': 0})],
